@@ -1126,7 +1126,8 @@ pub fn tour(d: &mut D) {
                 }
                 let target = (er, es, ui);
                 // one action at a time from the target state
-                let nact = 2 * packets.len() + 2 * eids.len() + uuids.len();
+                // from this abstract state the encoders report the response half's EID and change nothing
+                let nact = 2 * packets.len() + 2 * eids.len() + uuids.len() + 3;
                 for act in 0..nact {
                     // navigate
                     if cur.2 != target.2 {
@@ -1150,10 +1151,17 @@ pub fn tour(d: &mut D) {
                         d.ex(json!({"op":"set_eid","ctx":c,"half":"req","eid":eids[act - 2 * packets.len()]}))
                     } else if act < 2 * packets.len() + 2 * eids.len() {
                         d.ex(json!({"op":"set_eid","ctx":c,"half":"resp","eid":eids[act - 2 * packets.len() - eids.len()]}))
-                    } else {
+                    } else if act < 2 * packets.len() + 2 * eids.len() + uuids.len() {
                         let ix = act - 2 * packets.len() - 2 * eids.len();
                         cur.2 = ix + 1;
                         d.ex(json!({"op":"set_uuid","ctx":c,"uuid":jb(&uuids[ix])}))
+                    } else {
+                        let poison = d.poison();
+                        match act - (2 * packets.len() + 2 * eids.len() + uuids.len()) {
+                            0 => d.ex(json!({"op":"enc_resp","ctx":c,"name":"set_endpoint_id","args":{"dst":17,"cc":0,"assignment":0,"allocation":0},"buf_len":20,"poison":poison})),
+                            1 => d.ex(json!({"op":"enc_resp","ctx":c,"name":"get_endpoint_id","args":{"dst":17,"cc":0,"endpoint_type":0,"id_type":0,"fairness":0},"buf_len":20,"poison":poison})),
+                            _ => d.ex(json!({"op":"enc_req","ctx":c,"name":"set_endpoint_id","args":{"dst":17,"operation":0,"eid":9},"buf_len":20,"poison":poison})),
+                        }
                     };
                     cur.0 = e["post"]["eid_req"].as_u64().unwrap() as u8;
                     cur.1 = e["post"]["eid_resp"].as_u64().unwrap() as u8;
